@@ -230,32 +230,35 @@ Raw(n, lay) ==
     [] n.t = "call" -> [lv |-> 8, ts |-> <<NmT(n.name.n), NsT("(")>> \o PrList(n.args, 1, lay, FALSE) \o <<NsT(")")>>]
     [] n.t = "fn" -> [lv |-> -1, ts |-> <<NsT("(")>> \o
                           [i \in 1..(IF Len(n.params) = 0 THEN 0 ELSE 2 * Len(n.params) - 1) |-> IF i % 2 = 1 THEN NmT(n.params[(i + 1) \div 2]) ELSE NsT(",")]
-                          \o <<NsT(")"), StT("->")>> \o PrB(n.body, FALSE, FALSE, lay)]
+                          \o <<NsT(")"), StT("->")>> \o PrB(n.body, <<>>, FALSE, lay)]
 PrE(n, minp, lay) ==
   LET r == Raw(n, lay)
       \* redundant parentheses around every operator/index/literal subexpression (not around function literals: they are parenthesised only where required)
       r2 == IF lay = "parens" /\ n.t # "fn" THEN [lv |-> 8, ts |-> Paren(r.ts)] ELSE r
   IN IF r2.lv < minp THEN Paren(r2.ts) ELSE r2.ts
-\* body position
-PrB(n, afterExpr, beforeElse, lay) ==
+\* body position.  prev: the tokens of the expression written just before the body (<<>> when the body follows a keyword or "->").
+\* A one-line body is braced only where its text would be misread: "[" and "-" continue any expression, "(" continues a variable
+\* name (a call; true and false are literals, not names), and an if without else would capture a following else.
+AfterVar(prev) == Len(prev) > 0 /\ prev[Len(prev)].k = "Name" /\ prev[Len(prev)].v \notin {"true", "false"}
+PrB(n, prev, beforeElse, lay) ==
   IF n.t = "block"
   THEN LET RECURSIVE Sts(_)
            Sts(i) == IF i > Len(n.ss) THEN <<>> ELSE PrS(n.ss[i], lay) \o <<EolT>> \o (IF lay = "eols" THEN <<EolT>> ELSE <<>>) \o Sts(i + 1)
        IN <<NsT("{"), EolT>> \o (IF lay = "eols" THEN <<EolT>> ELSE <<>>) \o Sts(1) \o <<NsT("}")>>
   ELSE LET ts == PrS(n, lay) IN
-       IF (afterExpr /\ ts[1].v \in {"[", "(", "-"}) \/ (beforeElse /\ OpenIf(n))
+       IF (Len(prev) > 0 /\ (ts[1].v \in {"[", "-"} \/ (ts[1].v = "(" /\ AfterVar(prev)))) \/ (beforeElse /\ OpenIf(n))
        THEN <<NsT("{"), EolT>> \o ts \o <<EolT, NsT("}")>> ELSE ts
 RECURSIVE Names(_, _)
 Names(vs, i) == IF i > Len(vs) THEN <<>> ELSE <<NmT(vs[i].n)>> \o (IF i < Len(vs) THEN <<NsT(",")>> ELSE <<>>) \o Names(vs, i + 1)
 PrS(n, lay) ==
   CASE n.t = "assign" -> <<NmT(n.tgt.n), StT("=")>> \o PrE(n.e, -1, lay)
-    [] n.t = "if" -> <<NmT("if")>> \o PrE(n.c, -1, lay) \o PrB(n.th, TRUE, FALSE, lay)
-    [] n.t = "ifelse" -> <<NmT("if")>> \o PrE(n.c, -1, lay) \o PrB(n.th, TRUE, TRUE, lay) \o <<NmT("else")>> \o PrB(n.el, FALSE, FALSE, lay)
-    [] n.t = "while" -> <<NmT("while")>> \o PrE(n.c, -1, lay) \o PrB(n.body, TRUE, FALSE, lay)
-    [] n.t = "for" -> <<NmT("for")>> \o Names(n.vars, 1) \o <<StT("<-")>> \o PrList(n.iters, 1, lay, FALSE) \o PrB(n.body, TRUE, FALSE, lay)
+    [] n.t = "if" -> LET c == PrE(n.c, -1, lay) IN <<NmT("if")>> \o c \o PrB(n.th, c, FALSE, lay)
+    [] n.t = "ifelse" -> LET c == PrE(n.c, -1, lay) IN <<NmT("if")>> \o c \o PrB(n.th, c, TRUE, lay) \o <<NmT("else")>> \o PrB(n.el, <<>>, FALSE, lay)
+    [] n.t = "while" -> LET c == PrE(n.c, -1, lay) IN <<NmT("while")>> \o c \o PrB(n.body, c, FALSE, lay)
+    [] n.t = "for" -> LET its == PrList(n.iters, 1, lay, FALSE) IN <<NmT("for")>> \o Names(n.vars, 1) \o <<StT("<-")>> \o its \o PrB(n.body, its, FALSE, lay)
     [] n.t = "ret" -> <<NmT("return")>> \o PrE(n.e, -1, lay)
     [] n.t = "yield" -> <<NmT("yield")>> \o PrE(n.e, -1, lay)
-    [] n.t = "block" -> PrB(n, FALSE, FALSE, lay)
+    [] n.t = "block" -> PrB(n, <<>>, FALSE, lay)
     [] OTHER -> PrE(n, -1, lay)
 PrintTree(n, lay) == PrS(n, lay) \o <<EolT, EofT>>
 Layouts == {"plain", "parens", "eols"}
